@@ -60,7 +60,10 @@ TOLERANCES = {
                    'inner product| + (|z-p|_M + |p-x|_M)(|p|_M + |x|_M)); a '
                    'point p displaced by c*eps*|p| from the exact minimiser '
                    'changes the gap by at most that last product times '
-                   'c*eps (|p|_M + |x|_M is increased by amb*|1|_M when the '
+                   'c*eps, plus osc = max|f(p+d) - f(p)| over displacements '
+                   '|d|_inf <= 64 eps amb (covers kinks, where the slope of '
+                   'f is not bounded by |x-p|/sigma) (|p|_M + |x|_M is '
+                   'increased by amb*|1|_M when the '
                    'rule chain passes through points of magnitude amb > '
                    '|p|, |x|); mag = sum of '
                    'absolute values of the summed terms; the 1e3 absorbs the '
@@ -98,7 +101,12 @@ ASSUMPTIONS = [
     'exp(x/(sigma*lam)) does not overflow; the same narrow range for the '
     'KL family on float32 spaces, where the closed form (x - s + sqrt((x - '
     's)^2 + 4 s g))/2 cancels completely once |x|^2 eps32 > s g and '
-    'returns the boundary point 0 (f = inf)',
+    'returns the boundary point 0 (f = inf); exponential-type functionals '
+    'on float32: |x| <= 5.25, sigma <= 7, scalings <= 2 (exp overflows at '
+    '88)',
+    'data entries are 0 or of magnitude >= 1e-30 (no subnormal-scale data: '
+    'NuclearNorm.proximal takes 1/s of the singular values and returns NaN '
+    'when that overflows)',
     'SeparableSum lives on the unweighted product of the summands domains; '
     'NuclearNorm on unweighted (base^m)^n with weighted base',
     'the value of a default convex conjugate is never needed: its proximal '
@@ -168,7 +176,9 @@ def _wrap(draw, fd, e, rsp, mode, exp_type, el_ok):
     rules = FUNC_RULES if mode == 'functional' else FAC_RULES
     rule = draw(st.sampled_from(rules))
     direct = fd['t'] == 'leaf'
-    scal = (st.sampled_from([0.5, 2.0, -1.0, -2.0, 4.0, -0.5, 1.0])
+    scal = (st.sampled_from([0.5, 2.0, -1.0, -2.0, -0.5, 1.0])
+            if exp_type == 2 else
+            st.sampled_from([0.5, 2.0, -1.0, -2.0, 4.0, -0.5, 1.0])
             if exp_type else zoo.SCALINGS)
     if rule == 'bregman':
         ok = (direct and e.name in BREGMAN_OK and
@@ -254,7 +264,8 @@ def _has_rejection(fd):
 def _sigma(draw, kinds, rsp, exp_type, nparts=None):
     kind = draw(st.sampled_from(list(kinds)))
     sig = (st.one_of(st.sampled_from([1.0, 0.5, 2.0, 0.25, 7.0]),
-                     st.floats(0.25, 50.0).map(zoo._r32))
+                     st.floats(0.25, 7.0 if exp_type == 2 else 50.0).map(
+                         zoo._r32))
            if exp_type else zoo.SIGMAS)
     if kind == 'scalar':
         return {'kind': 'scalar', 'value': draw(sig)}
@@ -291,8 +302,11 @@ def _tree_on(draw, e, kind, sizes, wkinds=None, max_depth=3,
     # exp) and, on float32 spaces, the KL family (the closed form
     # (x - s + sqrt((x - s)^2 + 4 s g))/2 cancels completely once
     # |x|^2 eps(dtype) > s g and returns the boundary point)
-    exp_type = e.name in EXP_TYPE or (
-        e.name in KL_FAMILY and zoo.dtype_of(sd) == 'float32')
+    # level 2: exponential type on float32 (exp overflows at 88)
+    f32 = zoo.dtype_of(sd) == 'float32'
+    exp_type = (2 if (e.name in EXP_TYPE and f32) else
+                1 if (e.name in EXP_TYPE or (e.name in KL_FAMILY and f32))
+                else 0)
     site = e.site(fd['params'])
     depth = (force_depth if force_depth is not None else
              draw(st.sampled_from([0, 0, 0, 1, 1, 2, 3])))
@@ -345,7 +359,7 @@ def _case(draw, tier, cell=None):
                 ('f_box_bad', 'QuadraticForm')]
         nparts = draw(st.sampled_from([2, 2, 3]))
         power = draw(st.integers(0, 3)) == 0
-        parts, sds, exp_type = [], [], False
+        parts, sds, exp_type = [], [], 0
         dt = draw(st.sampled_from(['float64'] * 5 + ['float32']))
         for i in range(nparts):
             ei = e if i == 0 else draw(st.sampled_from(pool))
@@ -365,7 +379,7 @@ def _case(draw, tier, cell=None):
                     'T', ('tiny',), max_depth=0, dtype=dt))
             parts.append(fdi)
             sds.append(sdi)
-            exp_type = exp_type or ex
+            exp_type = max(exp_type, ex)
         if power:
             parts = [parts[0]] * nparts
             sds = [sds[0]] * nparts
@@ -386,7 +400,7 @@ def _case(draw, tier, cell=None):
             kinds = ['scalar']
     rsp = R.RSpace(sd)
     n = rsp.size
-    cap = 1.0 if exp_type else 30.0
+    cap = 0.25 if exp_type == 2 else 1.0 if exp_type else 30.0
     scale = min(draw(st.sampled_from([1.0, 1.0, 0.1, 10.0, 30.0])), cap)
     desc = {
         'space': sd, 'func': fd, 'mode': mode,
@@ -463,6 +477,7 @@ class Problem(object):
         self.amb = max(float(np.abs(self.p).max(initial=0)),
                        float(np.abs(self.x).max(initial=0)), amb)
         self.fp, self.magp = None, None
+        self.osc = 0.0
         self.g = self.p - self.x           # gradient of the quadratic / M
         self.pn = _mnorm(self.M, self.p) + _mnorm(self.M, self.x)
         own = max(float(np.abs(self.p).max(initial=0)),
@@ -485,7 +500,8 @@ class Problem(object):
         gap = (fz - self.fp) + lin
         tol = K_TOL * R.eps() * (1.0 + magz + self.magp +
                              float(np.sum(np.abs(terms))) +
-                             (_mnorm(self.M, d) + self.gn) * self.pn)
+                             (_mnorm(self.M, d) + self.gn) * self.pn) + \
+            self.osc
         return gap, tol, True
 
     def objective(self, z):
@@ -730,10 +746,36 @@ def _call_out(op, arg, out, callable_only):
     return op(arg, out=out)
 
 
+def _oscillation(pb, rng):
+    """max |f(p + d) - f(p)| over a few displacements |d|_inf <= 64 eps amb:
+    what a rounding-size displacement of p (amb = largest magnitude along
+    the rule chain) can change in f.  At a kink the slope of f is not
+    bounded by |x - p|/sigma (p = -1e-14 x returned for the exact answer 0
+    by a deliberately shrunk threshold costs lam*|p|), so this enters the
+    tolerance explicitly."""
+    r = 64.0 * R.eps() * max(pb.amb, 1e-300)
+    n = pb.p.size
+    ds = [np.clip(-pb.p, -r, r)]
+    for _ in range(2):
+        d = r * rng.choice([-1.0, 1.0], size=n)
+        ds += [d, -d]
+    osc = 0.0
+    for d in ds:
+        fz = pb.node.value(pb.p + d, pb.amb)
+        if np.isfinite(fz):
+            osc = max(osc, abs(fz - pb.fp))
+    return osc
+
+
 def _certify(ref, pv, xv, sigma_flat, rng, ctx, notes):
     """Feasibility of p and the optimality certificate on all probes;
     raises Violation (clauses 'infeasible' / 'certificate')."""
     amb, sig_eff = R.ambient(ref, pv, xv, sigma_flat)
+    # the nuclear-norm proximal shrinks its threshold by an *absolute*
+    # 10*resolution; through Moreau / scaling rules that becomes
+    # 10*resolution times the effective step, so the step counts as a
+    # magnitude of the chain
+    amb = max(amb, sig_eff)
     problems = [Problem(*t, amb=amb) for t in R.reduce_problem(
         ref, pv, xv, sigma_flat)]
     nprobe = 0
@@ -759,6 +801,7 @@ def _certify(ref, pv, xv, sigma_flat, rng, ctx, notes):
                         None if ex is None else '{:.3g}'.format(ex[1]),
                         _short(pb.p), _short(pb.x)))
         pb.fp, pb.magp = fp, magp
+        pb.osc = _oscillation(pb, rng)
         zs = probes(pb, rng)
         if node.sp.size <= 4:
             zs += scipy_probes(pb, rng)
@@ -946,10 +989,14 @@ def _run_tree(desc):
     if func is not None and ref.has_value:
         _value_byproduct(func, ref, p_el, pv, x, xv, notes, ctx)
     if func is not None and isinstance(ref, (R.RIndSimplex, R.RIndSum)) \
-            and ref.doc_excess(pv, margin=0.5):
+            and ref.doc_excess(pv, margin=0.5) and \
+            n * R.eps() * float(np.abs(pv).sum()) <= 0.25 * ref.doc_rtol * \
+            abs(getattr(ref, 'r', getattr(ref, 'c', 1.0))):
         # p satisfies the *documented* membership test of the class
         # (sum_rtol default: 1e-10*size on float64 spaces, 1e-6*size
-        # otherwise) with a factor two to spare: the library has to agree
+        # otherwise) with a factor two to spare, and the rounding error of
+        # a sum of the entries in the dtype of the space (n eps sum|p|)
+        # cannot use up the rest: the library has to agree
         strata.append('lib-value-clause')
         lib = float(_odl_call(func, ctx, p_el))
         if not np.isfinite(lib):
